@@ -28,9 +28,63 @@ impl GhostHistory {
         self.0.as_ref()
     }
 }
+/// ghost board: the two occupancies (arbitrary, but CONSISTENT with the generated lists -- see consistent_with_lists) and
+/// what stands on a square; enough for a plausibility filter on remembered moves to be compiled here and judged
+pub struct GhostBoard {
+    pub ours: crate::chess::bitboard::Bitboard,
+    pub theirs: crate::chess::bitboard::Bitboard,
+    pub player: Player,
+}
+impl GhostBoard {
+    pub fn occupancy_for(&self, p: Player) -> crate::chess::bitboard::Bitboard {
+        if p == self.player { self.ours } else { self.theirs }
+    }
+    pub fn occupancy(&self) -> crate::chess::bitboard::Bitboard {
+        self.ours | self.theirs
+    }
+    pub fn piece_at(&self, s: Square) -> Option<crate::chess::piece::Piece> {
+        if self.ours.contains(s) {
+            Some(crate::chess::piece::Piece::new(self.player, crate::chess::piece::PieceKind::ALL[(kani::any::<u8>() % 6) as usize]))
+        } else if self.theirs.contains(s) {
+            Some(crate::chess::piece::Piece::new(self.player.other(), crate::chess::piece::PieceKind::ALL[(kani::any::<u8>() % 5) as usize]))
+        } else {
+            None
+        }
+    }
+}
 pub struct Game {
     pub player: Player,
     pub history: GhostHistory,
+    pub board: GhostBoard,
+}
+/// an arbitrary position for the side `player`, consistent with a LEGAL move m (what C01 establishes for every generated
+/// move): the mover's square is ours, the destination is not ours, and an enemy piece stands on the destination exactly for
+/// captures and capturing promotions (en passant lands on an EMPTY square)
+pub fn fits(b: &GhostBoard, m: Move) -> bool {
+    b.ours.contains(m.src())
+        && !b.ours.contains(m.dst())
+        && b.theirs.contains(m.dst()) == (m.is_capture() && !m.is_en_passant())
+}
+pub fn any_board_for_lists(player: Player) -> GhostBoard {
+    let b = GhostBoard { ours: crate::chess::bitboard::Bitboard::new(kani::any()), theirs: crate::chess::bitboard::Bitboard::new(kani::any()), player };
+    kani::assume((b.ours & b.theirs).is_empty());
+    unsafe {
+        let mut i = 0;
+        while i < NC {
+            if let Some(m) = CAPS[i] {
+                kani::assume(fits(&b, m));
+            }
+            i += 1;
+        }
+        let mut i = 0;
+        while i < NQ {
+            if let Some(m) = QUIETS[i] {
+                kani::assume(fits(&b, m));
+            }
+            i += 1;
+        }
+    }
+    b
 }
 pub struct GhostKillers(pub Option<Move>, pub Option<Move>);
 impl GhostKillers {
@@ -136,6 +190,8 @@ impl MoveList {
 //@@ item: engine/search/move_picker.rs :: enum GenStage
 //@@ item: engine/search/move_picker.rs :: struct MovePicker
 //@@ item: engine/search/move_picker.rs :: impl MovePicker
+// free helper functions of the module other than the ones rebound above (none on the pinned tree)
+//@@ fns-except: engine/search/move_picker.rs :: score_tactical, score_quiet
 
 fn any_promo() -> PromotionPieceKind {
     match kani::any::<u8>() % 4 {
@@ -236,7 +292,8 @@ fn stream(loud: bool) {
     if let Some(h) = hash {
         kani::assume(in_caps(h) || in_quiets(h));
     }
-    let game = Game { player: geo::any_player(), history: GhostHistory(if kani::any() { Some(GhostEntry { mv: any_move_opt() }) } else { None }) };
+    let side = geo::any_player();
+    let game = Game { player: side, history: GhostHistory(if kani::any() { Some(GhostEntry { mv: any_move_opt() }) } else { None }), board: any_board_for_lists(side) };
     let hist = GhostHist;
     // remembered moves: arbitrary, legal here or not
     let ctx = SearchContext { killer_moves: GhostKillers(any_move_opt(), any_move_opt()), countermove_table: GhostCounter(any_move_opt()), history_table: &hist };
@@ -467,7 +524,8 @@ fn step_from(loud: bool, fixed_stage: Option<u8>) {
         j += 1;
     }
     kani::assume(structural(&p, nc, nq));
-    let game = Game { player: geo::any_player(), history: GhostHistory(if kani::any() { Some(GhostEntry { mv: any_move_opt() }) } else { None }) };
+    let side = geo::any_player();
+    let game = Game { player: side, history: GhostHistory(if kani::any() { Some(GhostEntry { mv: any_move_opt() }) } else { None }), board: any_board_for_lists(side) };
     let hist = GhostHist;
     let ctx = SearchContext { killer_moves: GhostKillers(any_move_opt(), any_move_opt()), countermove_table: GhostCounter(any_move_opt()), history_table: &hist };
     // an arbitrary generated move x, to state "exactly the returned move becomes yielded" for all moves at once
@@ -677,7 +735,7 @@ fn vk_c10_step_initial() {
 #[kani::unwind(6)]
 fn vk_c10_canary_stream() {
     let (nc, nq) = any_lists();
-    let game = Game { player: Player::White, history: GhostHistory(None) };
+    let game = Game { player: Player::White, history: GhostHistory(None), board: any_board_for_lists(Player::White) };
     let hist = GhostHist;
     let ctx = SearchContext { killer_moves: GhostKillers(None, None), countermove_table: GhostCounter(None), history_table: &hist };
     let mut picker = MovePicker::new(None);
